@@ -9,7 +9,7 @@ from __future__ import annotations
 
 from typing import Any, Callable, cast
 
-from exabgp.protocol.family import SAFI
+from exabgp.protocol.family import AFI, SAFI
 
 from exabgp.configuration.core import Section
 from exabgp.configuration.core import Parser
@@ -105,6 +105,8 @@ class ParseFlow(Section):
 def route(tokeniser: Any) -> list[Route]:
     from exabgp.protocol.ip import IP
 
+    # as for the block form: the components are checked against the family of this rule's own prefixes
+    tokeniser.afi = AFI.undefined
     flow_nlri = Flow.make_flow()
     attributes = AttributeCollection()
     nexthop: IP = IP.NoNextHop  # Track nexthop separately
